@@ -443,7 +443,9 @@ impl ParsedValue {
         let (before, rest) = value.split_once('<')?;
         let (ident, after) = rest.split_once('>')?;
 
-        let skip = before.len() + ident.len() + 2;
+        // when this is not a tag after all the search resumes right after the `<`: a lone `<` in the text
+        // (`x < 5 then <b>..</b>`) pairs with the `>` of the next real tag, skipping both would lose that tag.
+        let skip = before.len() + 1;
 
         Some((before, ident.trim(), after, skip))
     }
